@@ -117,3 +117,22 @@ def variant(rng, pts, lev, max_depth=14):
             L.insert(j + 1, newl)
             break
     return P, L
+
+
+def same_shape_on(levels, a, b):
+    """The midpoint-split refinement tree with the given level sequence, built on another interval [a, b] with the library's own
+    midpoint arithmetic 0.5*(left+right): same tree shape, other coordinates / interval length."""
+    n = len(levels)
+    pts = [None] * n
+    pts[0], pts[-1] = float(a), float(b)
+
+    def fill(i, j):
+        if j - i < 2:
+            return
+        inner = range(i + 1, j)
+        k = min(inner, key=lambda t: levels[t])
+        pts[k] = 0.5 * (pts[i] + pts[j])
+        fill(i, k)
+        fill(k, j)
+    fill(0, n - 1)
+    return pts
